@@ -322,7 +322,15 @@ def _adds_len_of(e, x):
     ops = [e[2], e[3]]
     has_off = any(isinstance(o, tuple) and o[0] == "field" and o[2] == "f_offset" for o in ops)
     lens = [("len", x), ("call", "alloc::vec::Vec::<T, A>::len", (x,)), ("call", "core::slice::<impl [T]>::len", (x,))]
-    return has_off and any(o in lens for o in ops)
+    # a prefix slice buf[..n] (or buf[0..n]) has length n: indexing panics otherwise
+    if isinstance(x, tuple) and x[0] == "call" and x[1].endswith("::index") and len(x[2]) == 2:
+        r = x[2][1]
+        if isinstance(r, tuple) and r[0] == "agg" and re.search(r"ops::range::(RangeTo|Range)\b", r[1]):
+            d = dict(r[2])
+            if d.get("start", ("const", 0)) == ("const", 0) and "end" in d:
+                lens.append(d["end"])
+    lens = [strip_tags(l) for l in lens]
+    return has_off and any(strip_tags(o) in lens for o in ops)
 
 
 def _field_writes(f, name):
@@ -561,5 +569,30 @@ def _varint(F, rep):
                     conds = [(fmt(c[0]), cond_bool(c[1], c[2])) for c in dominating_conds(r, bi, exr)]
                     zero_r = any(k[1] is True and k[0].startswith("Eq(") and "0" in k[0] for k in conds)
     rep.ob("C13-VAR", "reader decodes the single byte 0 as zero", zero_r, key="C13-VAR | reader zero")
+    # every bounded sink handed to the writer holds the longest encoding (1 count byte + 8 value bytes)
+    nsink = 0
+    for f in F.funcs.values():
+        if f.kind == "promoted":
+            continue
+        exf = None
+        for bi, t in f.calls():
+            if t.get("indirect") or t["callee"] != w.key:
+                continue
+            nsink += 1
+            wty = (t.get("gargs") or ["?"])[0]
+            if not re.search(r"\[u8(; \d+)?\]", wty):
+                continue        # growable or stream writer (Vec, File, BufWriter, generic W): no capacity to run out of
+            exf = exf or Exprs(f)
+            names = {v: k for k, v in f.local_names().items()}
+            caps = []
+            for x in walk(exf.operand(t["args"][0])):
+                if isinstance(x, tuple) and x[0] == "var" and x[1] in names:
+                    m = re.match(r"^\[u8; (\d+)\]$", f.locals[names[x[1]]]["ty"])
+                    if m:
+                        caps.append(int(m.group(1)))
+            rep.ob("C13-VAR", "fixed-size sink passed to write_varint in %s holds the 9 bytes of the longest encoding" % f.key.rsplit("::", 1)[-1],
+                   bool(caps) and min(caps) >= 9, detail="writer type %s, capacity %s" % (wty, caps or "unknown"), site=site_of(f, t),
+                   key="C13-VAR | %s | sink capacity" % f.key)
+    rep.floor("C13-VAR", nsink, 6, "write_varint call sites")
     sig = r.d.get("sig", "") + w.d.get("sig", "")
     rep.ob("C13-VAR", "both sides use u64", "u64" in w.d.get("sig", "") and "(u64, usize)" in r.d.get("sig", ""), how="trivial", key="C13-VAR | u64")
